@@ -117,7 +117,7 @@ RUNS = {
         {"name": "K7-shared-path-storm", "mode": "k7storm", "budget": (60, 2500), "nontrivial": r".", "keyfn": "generic"},
         {"name": "K7-scenarios", "mode": "k7scen", "budget": (8, 150), "nontrivial": r".", "keyfn": "k7scen"},
         {"name": "K7-random-workloads-race", "mode": "k7rand", "budget": (0, 90), "nontrivial": r".", "keyfn": "generic", "race": True, "tiers": ["thorough"]},
-        {"name": "K7-shared-path-storm-race", "mode": "k7storm", "budget": (0, 600), "nontrivial": r".", "keyfn": "generic", "race": True, "tiers": ["thorough"]},
+        {"name": "K7-shared-path-storm-race", "mode": "k7storm", "budget": (150, 600), "nontrivial": r".", "keyfn": "generic", "race": True},
         {"name": "K7-pairs-race", "mode": "k7pair", "budget": (0, 968), "nontrivial": r".", "keyfn": "k7pair", "race": True, "tiers": ["thorough"]},
         {"name": "K4-session-race", "mode": "k4", "budget": (0, 9000), "nontrivial": r"^rtyp=(?!7 )", "keyfn": "k4", "race": True, "tiers": ["thorough"]},
         {"name": "K7-buffers-not-shared-between-requests", "mode": "kalias", "budget": (96, 1600), "nontrivial": r"answered=1", "keyfn": "generic"},
@@ -762,6 +762,8 @@ PROPS["C09"]["rule"] = PROPS["C09"].get("rule", "") + (" k7pair: an unlink of an
 for _p in ("C02", "C05"):
     PROPS[_p]["rule"] = PROPS[_p].get("rule", "") + (" k2srv also ends a third of its streams by cutting the connection inside a frame that is fine so far (any byte after the first): "
         "Handle returns within 8 s (over a real socket pair: the vectorised read path).")
+PROPS["C16"]["rule"] = PROPS["C16"].get("rule", "") + (" The shared-path storm also runs under the Go race detector in the quick tier (150 cases, about 10 s after a 30 s build): the "
+    "property names data races, and a plain load where an atomic one is needed shows nowhere else.")
 PROPS["C10"]["level_text"] += (" Recycled response objects (Conc/RespPool.lean, after defect D20): over all clients of the process and every "
     "interleaving of calls starting, failing to send, being answered, connections failing and calls returning, a pooled response is referenced "
     "by no pending map and its channel is empty, no response serves two calls, and handleOne never blocks on a done channel while holding the "
